@@ -7,9 +7,11 @@ package comet
 
 import (
 	"bufio"
+	"bytes"
 	"encoding/json"
 	"fmt"
 	"hash/fnv"
+	"io"
 	"math"
 	"os"
 	"os/exec"
@@ -19,6 +21,7 @@ import (
 	"strconv"
 	"strings"
 	"sync"
+	"syscall"
 	"time"
 )
 
@@ -262,6 +265,7 @@ func VerifMain(args []string) int {
 		i, _ := strconv.Atoi(args[3])
 		bs, _ := strconv.Atoi(args[4])
 		sh := ch.Shards(tier)[i]
+		vLimitMemory()
 		c := newCtx(ch.ID, tier, sh.Name, seed, time.Duration(bs)*time.Second)
 		t0 := time.Now()
 		func() {
@@ -269,6 +273,18 @@ func VerifMain(args []string) int {
 				if r := recover(); r != nil {
 					buf := make([]byte, 1<<14)
 					n := runtime.Stack(buf, false)
+					if fn := vPanicOrigin(string(buf[:n])); fn != "" {
+						// the panic was raised inside the code under test (the innermost
+						// comet frame is not a harness function): a violation, not a
+						// harness failure. The shard stops here.
+						c.Exhaustive = false
+						c.Bound = "shard aborted by a panic in the code under test"
+						c.Violation("panic-in-code-under-test", fn, "shard "+sh.Name, nil, fmt.Sprintf("%v\n%s", r, vTail(string(buf[:n]), 1800)))
+						res := c.result()
+						res.WallS = time.Since(t0).Seconds()
+						json.NewEncoder(os.Stdout).Encode(res)
+						os.Exit(0)
+					}
 					c.Notes = append(c.Notes, fmt.Sprintf("HARNESS-PANIC: %v\n%s", r, buf[:n]))
 					res := c.result()
 					res.Error = fmt.Sprintf("harness panic: %v", r)
@@ -304,6 +320,39 @@ func VerifMain(args []string) int {
 			return 2
 		}
 		c := newCtx(ch.ID, "quick", "replay", seed, 10*time.Minute)
+		if v.Class == "panic-in-code-under-test" || v.Class == "fatal-error-in-code-under-test" || v.Class == "operation-did-not-return" {
+			// replayed by running the shard again (in this process): a panic in the code
+			// under test reproduces as a panic here
+			name := strings.TrimPrefix(v.Config, "shard ")
+			for _, tier := range []string{"quick", "thorough"} {
+				for _, sh := range ch.Shards(tier) {
+					if sh.Name != name {
+						continue
+					}
+					reproduced := false
+					func() {
+						defer func() {
+							if r := recover(); r != nil {
+								buf := make([]byte, 1<<14)
+								n := runtime.Stack(buf, false)
+								reproduced = vPanicOrigin(string(buf[:n])) != ""
+								fmt.Printf("replayed: panic %v\n", r)
+							}
+						}()
+						c2 := newCtx(ch.ID, tier, sh.Name, seed, 10*time.Minute)
+						sh.Run(c2)
+					}()
+					if reproduced {
+						fmt.Printf("REPRODUCED property=%s signature=%s\n", v.Property, v.Sig())
+						return 1
+					}
+					fmt.Printf("NOT-REPRODUCED property=%s signature=%s\n", v.Property, v.Sig())
+					return 0
+				}
+			}
+			fmt.Fprintln(os.Stderr, "shard not found:", name)
+			return 2
+		}
 		ok := ch.Replay(c, &v)
 		for _, s := range c.violOrder {
 			w := c.viol[s]
@@ -317,6 +366,78 @@ func VerifMain(args []string) int {
 		return 0
 	}
 	return 2
+}
+
+// vPanicOrigin inspects a goroutine stack taken inside a deferred recover: it returns the
+// innermost comet function below the panic when that function belongs to the code under
+// test, "" when it is a harness function (names v* / V* / init of zz_verif files).
+func vPanicOrigin(stack string) string {
+	lines := strings.Split(stack, "\n")
+	seenPanic := false
+	for i := 0; i+1 < len(lines); i++ {
+		l := lines[i]
+		if strings.HasPrefix(l, "panic(") || strings.HasPrefix(l, "runtime.panic") || strings.HasPrefix(l, "runtime.goPanic") || strings.HasPrefix(l, "runtime.sigpanic") {
+			seenPanic = true
+			continue
+		}
+		if !seenPanic {
+			continue
+		}
+		const pkg = "github.com/wizenheimer/comet."
+		if !strings.HasPrefix(l, pkg) {
+			continue
+		}
+		if strings.Contains(lines[i+1], "/zz_verif_") || strings.Contains(lines[i+1], "/internal/vrt/") {
+			return ""
+		}
+		fn := l[len(pkg):]
+		if j := strings.LastIndex(fn, "("); j > 0 {
+			fn = fn[:j]
+		}
+		if strings.HasPrefix(fn, "internal/vrt") {
+			continue
+		}
+		return fn
+	}
+	return ""
+}
+
+// vFatalError extracts the Go runtime's "fatal error: ..." line from a dead worker's
+// stderr ("" if there is none). Harness code is sequential and allocation-light, so a
+// runtime-fatal condition (out of memory, concurrent map writes, stack overflow, all
+// goroutines asleep) is attributed to the code under test.
+func vFatalError(stderr string) string {
+	for _, l := range strings.Split(stderr, "\n") {
+		if strings.HasPrefix(l, "fatal error: ") {
+			return strings.TrimSpace(strings.TrimPrefix(l, "fatal error: "))
+		}
+		if strings.HasPrefix(l, "runtime: out of memory") || strings.Contains(l, "cannot allocate memory") {
+			return "out of memory"
+		}
+	}
+	return ""
+}
+
+// vLimitMemory caps the worker's address space (the sandbox itself has no limit): a change
+// that makes the code under test allocate without bound ends as a reported fatal error
+// of this worker instead of taking the machine down. VERIF_MEM_GB overrides (0 = none).
+func vLimitMemory() {
+	gb := 24
+	if s := os.Getenv("VERIF_MEM_GB"); s != "" {
+		gb, _ = strconv.Atoi(s)
+	}
+	if gb <= 0 {
+		return
+	}
+	lim := syscall.Rlimit{Cur: uint64(gb) << 30, Max: uint64(gb) << 30}
+	syscall.Setrlimit(syscall.RLIMIT_AS, &lim)
+}
+
+func vTail(s string, n int) string {
+	if len(s) > n {
+		return s[:n]
+	}
+	return s
 }
 
 func vOrchestrate(id, tier, verifDir string, seed int64, triage bool) int {
@@ -354,6 +475,7 @@ func vOrchestrate(id, tier, verifDir string, seed int64, triage bool) int {
 	self, _ := os.Executable()
 	harnessErr := false
 	var hangs []string
+	var fatals [][3]string
 	var mu sync.Mutex
 	for _, i := range order {
 		wg.Add(1)
@@ -367,7 +489,8 @@ func vOrchestrate(id, tier, verifDir string, seed int64, triage bool) int {
 			}
 			cmd := exec.Command(self, "worker", id, tier, strconv.Itoa(i), strconv.Itoa(per))
 			cmd.Env = append(os.Environ(), "GOMAXPROCS=1")
-			cmd.Stderr = os.Stderr
+			var errBuf bytes.Buffer
+			cmd.Stderr = io.MultiWriter(os.Stderr, &errBuf)
 			// hard limit: a worker checks its deadline between executions; one that is
 			// still running 300 s after it is stuck INSIDE an execution of the code
 			// under test (deadlock / endless loop in sequential use)
@@ -389,6 +512,14 @@ func vOrchestrate(id, tier, verifDir string, seed int64, triage bool) int {
 			var r vResult
 			lines := strings.Split(strings.TrimSpace(string(out)), "\n")
 			if jerr := json.Unmarshal([]byte(lines[len(lines)-1]), &r); jerr != nil {
+				if fe := vFatalError(errBuf.String()); fe != "" {
+					// the Go runtime killed the worker (out of memory, concurrent map
+					// access, stack overflow, ...) inside the code under test
+					mu.Lock()
+					fatals = append(fatals, [3]string{shards[i].Name, fe, vTail(errBuf.String(), 1800)})
+					mu.Unlock()
+					return
+				}
 				mu.Lock()
 				harnessErr = true
 				mu.Unlock()
@@ -459,6 +590,13 @@ func vOrchestrate(id, tier, verifDir string, seed int64, triage bool) int {
 			Detail: "the worker exploring this shard was still inside one execution of the code under test 300 s after its deadline (deadlock or endless loop); it was killed"}
 		bySig[v.Sig()] = v
 		sigOrder = append(sigOrder, v.Sig())
+	}
+	for _, f := range fatals {
+		v := &vViolation{Property: id, Class: "fatal-error-in-code-under-test", Cause: f[1], Config: "shard " + f[0], Shard: f[0], Count: 1, Detail: f[2]}
+		if _, dup := bySig[v.Sig()]; !dup {
+			bySig[v.Sig()] = v
+			sigOrder = append(sigOrder, v.Sig())
+		}
 	}
 	sort.Strings(sigOrder)
 
@@ -567,6 +705,8 @@ func vShardWeight(name string) int {
 		return 4
 	case strings.HasPrefix(name, "sched/"):
 		return 3
+	case strings.HasPrefix(name, "large/"), strings.HasPrefix(name, "sweep/"), strings.Contains(name, "/sweep"), strings.Contains(name, "faults"):
+		return 3 // long single-threaded shards: start them first
 	case strings.Contains(name, "hnsw"), strings.Contains(name, "racepass"):
 		return 2
 	}
